@@ -470,7 +470,10 @@ def lexParts (g : Grow) : SB → List Part → Option SB
     match lexLit g v (v.length + 1) 0 0 st with
     | none => none
     | some (st1, last) =>
-      let st2 := if last = 0 then addLit g st1 (.lit v) else addLit g st1 (.lit (v.drop last))
+      -- `if last == 0 { addLit(lit) } else if last < len(lit.Value) { left := *lit; …; addLit(&left) }`:
+      -- no empty literal after a trailing brace character (commit "fix: … {,x}")
+      let st2 := if last = 0 then addLit g st1 (.lit v)
+                 else if last < v.length then addLit g st1 (.lit (v.drop last)) else st1
       lexParts g st2 rest
   | st, p :: rest => lexParts g (addLit g st p) rest
 
@@ -493,7 +496,9 @@ def hasBraceLit : List Part → Bool
   | .lit v :: rest => v.contains cLBrace || hasBraceLit rest
   | _ :: rest => hasBraceLit rest
 
-/-- `syntax.SplitBraces(word)` on the `Word` object `w`: the new heap and the Boolean result. -/
+/-- `syntax.SplitBraces(word)` on the `Word` object `w`: the new heap and the Boolean result
+    (as of the commits "SplitBraces reports false and leaves the word alone when it found no brace
+    expression" and "no longer appends an empty literal after a closing brace"). -/
 def splitBraces (g : Grow) (h : Heap) (w : Nat) : Option (Heap × Bool) :=
   let parts := partsOf h w
   if !hasBraceLit parts then some (h, false)
@@ -504,7 +509,11 @@ def splitBraces (g : Grow) (h : Heap) (w : Nat) : Option (Heap × Bool) :=
     | some st =>
       match closeOpen g (st.opn.length + 1) st with
       | none => none
-      | some st1 => some (setWord st1.h w (wordAt st1.h st1.top), true)   -- `*word = *top`
+      | some st1 =>
+        -- only malformed braces such as `a{b` or `{x}`: the word is left untouched (the Words and
+        -- arrays built so far are garbage)
+        if !(partsOf st1.h st1.top).any (fun p => match p with | .brace _ => true | _ => false) then some (st1.h, false)
+        else some (setWord st1.h w (wordAt st1.h st1.top), true)   -- `*word = *top`
 
 /-- `expand.FieldsSeq`: `word := *word` (a copy of the header, same backing array), then
     `syntax.SplitBraces(&word)`.  Returns the id of the copy. -/
